@@ -22,7 +22,8 @@ TECHNIQUE = ("property-based testing (Hypothesis): the statement text produced b
              "independent CQL lexer/term parser; the literal's denotation for the targeted CQL type is compared with the "
              "prepared-statement encoding of the same Python value decoded by the independent codec spec.values")
 RULE = ("Parameter values are built by construction for every type in Encoder.mapping and for subclasses of each (str/bytes/"
-        "int/float/Decimal/datetime/date/time/UUID/list/tuple(namedtuple)/set/dict subclasses, IntEnum, bool), plus util.Date/"
+        "int/float/Decimal/datetime/date/time/UUID/list/tuple(namedtuple)/set/dict subclasses at inheritance depth 1-3 and as "
+        "mixin (multiple-inheritance) classes with the supported type second in the bases, IntEnum, bool), plus util.Date/"
         "Time/Duration, OrderedMap, SortedSet, frozenset, generators, bytearray/memoryview, ipaddress objects, None and "
         "ValueSequence; collections are homogeneous and nested to depth <= 3.  Strings are assembled from quote characters, "
         "$$, ;, --, /* */, backslash, %, NUL, non-BMP text; numbers are boundary weighted (2^k +- 1, 17-digit floats, "
@@ -107,6 +108,36 @@ class DictSub(dict):
 Pair = namedtuple("Pair", "x y")
 Triple = namedtuple("Triple", "a b c")
 
+
+class Mixin(object):
+    """a behaviour-free mixin, for the multiple-inheritance variants"""
+
+    def describe(self):
+        return "mixin"
+
+
+def _family(direct, base):
+    """[direct subclass, grand-child, great-grand-child, mixin over the direct subclass, mixin directly over the supported type]"""
+    n = direct.__name__
+    c2 = type(n + "2", (direct,), {})
+    c3 = type(n + "3", (c2,), {})
+    mx = type(n + "Mixed", (Mixin, direct), {})
+    mb = type(n + "MixedBase", (Mixin, base), {}) if base is not None else mx
+    return [direct, c2, c3, mx, mb]
+
+
+_DEEP = {"strsub": _family(StrSub, str), "bytessub": _family(BytesSub, bytes), "intsub": _family(IntSub, int),
+         "floatsub": _family(FloatSub, float), "decimalsub": _family(DecimalSub, decimal.Decimal),
+         "datetimesub": _family(DateTimeSub, datetime.datetime), "datesub": _family(DateSub, datetime.date),
+         "timesub": _family(TimeSub, datetime.time), "uuidsub": _family(UUIDSub, uuid.UUID),
+         "listsub": _family(ListSub, list), "setsub": _family(SetSub, set), "dictsub": _family(DictSub, dict),
+         "pair": _family(Pair, None), "triple": _family(Triple, None)}
+
+
+def _cls(kind, d):
+    """the class for a subclass kind at inheritance depth d.get('deep', 0)  (0 direct .. 4, see _family)"""
+    return _DEEP[kind][d.get("deep", 0) % 5]
+
 _EPOCH_ORD = datetime.date(1970, 1, 1).toordinal()
 
 # ---------------------------------------------------------------------------------------------
@@ -124,32 +155,32 @@ def build(d):
     """-> (object handed to bind_params, object handed to the prepared path, target type tree)"""
     k = d["py"]
     if k in ("str", "strsub"):
-        o = d["v"] if k == "str" else StrSub(d["v"])
+        o = d["v"] if k == "str" else _cls("strsub", d)(d["v"])
         return o, o, {"t": "text"}
     if k in ("bytes", "bytearray", "memoryview", "bytessub"):
         b = bytes.fromhex(d["hex"])
-        o = {"bytes": b, "bytearray": bytearray(b), "memoryview": memoryview(b), "bytessub": BytesSub(b)}[k]
+        o = {"bytes": b, "bytearray": bytearray(b), "memoryview": memoryview(b), "bytessub": _cls("bytessub", d)(b)}[k]
         return o, o, {"t": "blob"}
     if k == "bool":
         return d["v"], d["v"], {"t": "boolean"}
     if k in ("int", "intsub"):
-        o = d["v"] if k == "int" else IntSub(d["v"])
+        o = d["v"] if k == "int" else _cls("intsub", d)(d["v"])
         return o, o, {"t": "varint"}
     if k == "intenum":
         o = list(Color)[d["v"] % len(Color)]
         return o, o, {"t": "varint"}
     if k in ("float", "floatsub"):
         f = _float(d["v"])
-        o = f if k == "float" else FloatSub(f)
+        o = f if k == "float" else _cls("floatsub", d)(f)
         return o, o, {"t": "double"}
     if k in ("decimal", "decimalsub"):
-        o = decimal.Decimal(d["v"]) if k == "decimal" else DecimalSub(d["v"])
+        o = decimal.Decimal(d["v"]) if k == "decimal" else _cls("decimalsub", d)(d["v"])
         return o, o, {"t": "decimal"}
     if k in ("uuid", "uuidsub"):
-        o = uuid.UUID(d["hex"]) if k == "uuid" else UUIDSub(d["hex"])
+        o = uuid.UUID(d["hex"]) if k == "uuid" else _cls("uuidsub", d)(d["hex"])
         return o, o, {"t": "uuid"}
     if k in ("datetime", "datetimesub"):
-        cls = datetime.datetime if k == "datetime" else DateTimeSub
+        cls = datetime.datetime if k == "datetime" else _cls("datetimesub", d)
         day = datetime.date.fromordinal(d["ord"])
         sod = d["sod"]
         tz = None if d["tz"] is None else datetime.timezone(datetime.timedelta(minutes=d["tz"]))
@@ -157,7 +188,7 @@ def build(d):
         return o, o, {"t": "timestamp"}
     if k in ("date", "datesub"):
         day = datetime.date.fromordinal(d["ord"])
-        o = day if k == "date" else DateSub(day.year, day.month, day.day)
+        o = day if k == "date" else _cls("datesub", d)(day.year, day.month, day.day)
         return o, o, {"t": "date"}
     if k == "Date":
         from cassandra.util import Date
@@ -165,7 +196,7 @@ def build(d):
         return o, o, {"t": "date"}
     if k in ("time", "timesub"):
         us = d["ns"] // 1000
-        cls = datetime.time if k == "time" else TimeSub
+        cls = datetime.time if k == "time" else _cls("timesub", d)
         o = cls(us // 3600000000, us // 60000000 % 60, us // 1000000 % 60, us % 1000000)
         return o, o, {"t": "time"}
     if k == "Time":
@@ -190,9 +221,9 @@ def build(d):
         if k == "tuple":
             return tuple(objs), tuple(pobjs), tree
         if k == "listsub":
-            return ListSub(objs), pobjs, tree
+            return _cls("listsub", d)(objs), pobjs, tree
         if k == "namedtuple":
-            cls = Pair if len(objs) == 2 else Triple
+            cls = _cls("pair" if len(objs) == 2 else "triple", d)
             return cls(*objs), tuple(pobjs), tree
         return (x for x in objs), pobjs, tree
     if k in ("set", "frozenset", "sortedset", "setsub"):
@@ -202,7 +233,7 @@ def build(d):
         if k == "sortedset":
             from cassandra.util import SortedSet
             return SortedSet(objs), SortedSet(pobjs), tree
-        cls = {"set": set, "frozenset": frozenset, "setsub": SetSub}[k]
+        cls = {"set": set, "frozenset": frozenset, "setsub": _cls("setsub", d)}[k]
         return cls(objs), set(pobjs), tree
     if k in ("dict", "OrderedDict", "OrderedMap", "dictsub"):
         built = [(build(a), build(b)) for a, b in d["items"]]
@@ -212,7 +243,7 @@ def build(d):
         if k == "OrderedMap":
             from cassandra.util import OrderedMap
             return OrderedMap(pairs), OrderedMap(ppairs), tree
-        cls = {"dict": dict, "OrderedDict": OrderedDict, "dictsub": DictSub}[k]
+        cls = {"dict": dict, "OrderedDict": OrderedDict, "dictsub": _cls("dictsub", d)}[k]
         return cls(pairs), OrderedDict(ppairs), tree
     if k == "seq":
         from cassandra.query import ValueSequence
@@ -474,7 +505,7 @@ def s_collection(depth):
         return st.builds(lambda items, k: {"py": "namedtuple" if k == "namedtuple" and len(items) in (2, 3) else ("tuple" if k == "namedtuple" else k),
                                            "items": items},
                          st.lists(fam, min_size=0, max_size=4).map(_homogeneous),
-                         st.sampled_from(["list", "list", "tuple", "listsub", "generator", "namedtuple"]))
+                         st.sampled_from(["list", "list", "tuple", "listsub", "generator", "namedtuple", "namedtuple"]))
 
     def sets(fam):
         return st.builds(lambda items, k: {"py": k, "items": _unique(items, _hashkey)}, st.lists(fam, min_size=0, max_size=4),
@@ -505,7 +536,23 @@ def s_case():
         "params": st.lists(param, min_size=n, max_size=n), "named": st.integers(0, 9).map(lambda i: i < 4),
         "template": st.sampled_from(["insert", "update", "select"])}))
     inlist = st.fixed_dictionaries({"params": st.tuples(seq).map(list), "named": st.booleans(), "template": st.just("in")})
-    return _pick([(12, normal), (1, inlist)])
+    base = _pick([(12, normal), (1, inlist)])
+    return st.builds(_assign_depths, base, st.lists(st.sampled_from([0, 0, 1, 1, 2, 3, 3, 4]), min_size=6, max_size=6))
+
+
+_DEEP_KINDS = _SUBCLASS_KINDS - frozenset(["intenum"])
+
+
+def _assign_depths(case, tape):
+    """give every subclass instance of the case an inheritance depth (0 direct subclass, 1 grand-child,
+    2 great-grand-child, 3 mixin + subclass, 4 mixin + supported type) from the drawn tape, in pre-order"""
+    pos = [0]
+    for d in case["params"]:
+        for n in _nodes(d):
+            if n["py"] in _DEEP_KINDS:
+                n["deep"] = tape[pos[0] % len(tape)]
+                pos[0] += 1
+    return case
 
 
 # ---------------------------------------------------------------------------------------------
@@ -660,6 +707,8 @@ def interpret(case, ctx):
     for d in descs:
         for nd in _nodes(d):
             ctx.label("py:" + nd["py"])
+            if nd.get("deep"):
+                ctx.label("deep:%d" % nd["deep"], "deep:" + nd["py"])
     ctx.label("depth:%d" % max(_depth(d) for d in descs), "named" if named else "positional", "params:%d" % n)
     ctx.nontrivial(any(_nontrivial(d) for d in descs))
 
@@ -678,7 +727,10 @@ def interpret(case, ctx):
         if m is not d:
             status, msg, extra = m_status, m_msg + "   [inside %s]" % d["py"], m_extra
         kind = m["py"]
-        if kind in _SUBCLASS_KINDS:
+        if kind in _SUBCLASS_KINDS and m.get("deep"):
+            # below a direct subclass (grand-children, mixins): a lookup that stops at the direct bases shows here only
+            ctx.fail(["C29.subclass", kind, "deep"], "%s: %s  [%s]" % (status, msg, type(build(m)[0]).__mro__[:4]))
+        elif kind in _SUBCLASS_KINDS:
             # one root cause whatever the symptom: Encoder dispatches on type(val), a subclass falls through to str()
             ctx.fail(["C29.subclass", kind], "%s: %s" % (status, msg))
         elif status == "raises":
